@@ -78,6 +78,7 @@ fn main() {
             "C08" => props::c08::run(&ctx),
             "C10" => props::c10::run(&ctx),
             "C11" => props::c11::run(&ctx),
+            "C12" => props::c12::run(&ctx),
             "C14" => props::c14::run(&ctx),
             "C13" => props::c13::run(&ctx),
         "C09" => props::c09::run(&ctx),
